@@ -23,7 +23,7 @@ CHECKS = {
                  rowfilter=lambda r: r["tbl"] == "CA"),
     "C06": dict(spec="TblHmac", consts={Q: {}, T: {}}, tables=[("VERIF_TABLE_HMAC", "c06hmac", "hmac"), ("VERIF_TABLE_JWT", "c06jwt", "jwt")],
                 cap={Q: 10**7, T: 10**7}, n={Q: 4, T: 40}),
-    "C20": dict(spec="TblErrorWire", consts={Q: {}, T: {}}, tables=[("VERIF_TABLE_ERRWIRE", "c20wire", "errwire")], cap={Q: 10**7, T: 10**7}),
+    "C20": dict(spec="TblErrorWire", consts={Q: {}, T: {}}, tables=[("VERIF_TABLE_ERRWIRE", "c20wire", "errwire"), ("VERIF_TABLE_OKWIRE", "c20ok", "okwire")], cap={Q: 10**7, T: 10**7}),
     "C15": dict(spec="TblAssertion", consts={Q: {"MaxDev": 2}, T: {"MaxDev": 3}}, tables=[("VERIF_TABLE_ASSERT", "c15", "assert")], cap={Q: 10**7, T: 10**7}),
     "C14": dict(spec="TblIDToken", consts={Q: {}, T: {}}, tables=[("VERIF_TABLE_IDT", "c14", "idt")], cap={Q: 10**7, T: 10**7}),
     "C13": dict(spec="TblAuthz", consts={Q: {}, T: {}}, tables=[("VERIF_TABLE_AUTHZ", "c13", "authz")], cap={Q: 24000, T: 10**7},
